@@ -138,6 +138,12 @@ def with_history(p):
     if (h >> 20) % 8 == 0 and "debug_log" not in p:
         # the application runs the library's logger at DEBUG level (what is logged must not change what is done)
         p = dict(p, debug_log=True)
+    if (h >> 24) % 8 == 0 and "headers" not in p and "_ws_object" not in p:
+        # the application has given the WebSocket custom headers (add_header): a cookie that is not ASCII, credentials encoded
+        # with a trailing line break (base64.encodebytes), bytes that are no text at all -- what the request carries must not
+        # change what the connection does
+        p = dict(p, headers=[[(b"Cookie", u"sess=caf\u00e9".encode("utf-8"))], [(b"Authorization", b"Basic dXNlcjpwdw==\n")],
+                             [(b"X-A", b"1"), (b"Cookie", b"k=\xff\xfe")]][(h >> 27) % 3])
     if (h >> 16) % 8 == 0 and "busy_lock" not in p:
         # other threads of the application keep the write lock busy: non-blocking probes fail, blocking acquisition succeeds
         p = dict(p, busy_lock=True)
